@@ -953,7 +953,7 @@ func (p *c08Parent) crashImages(ops []c08Op, script string) {
 		im := c08Image{}
 		p.reopen(im.clone(), false, "prefix", script)
 		for i, o := range ops {
-			if o.kind == "append" && len(o.data) > 1 {
+			if (o.kind == "append" || o.kind == "pwrite") && len(o.data) > 1 {
 				cuts := []int{1, len(o.data) / 2, len(o.data) - 1}
 				if p.big {
 					cuts = []int{len(o.data) / 2}
@@ -963,14 +963,14 @@ func (p *c08Parent) crashImages(ops []c08Op, script string) {
 						continue
 					}
 					torn := im.clone()
-					torn.apply(c08Op{kind: "append", name: o.name, data: o.data[:k]})
+					torn.apply(c08Op{kind: o.kind, name: o.name, data: o.data[:k]})
 					p.reopen(torn, false, "torn", script)
 					p.reopen(torn, true, "torn", script)
 				}
 			}
 			im.apply(o)
 			p.reopen(im.clone(), false, "prefix", script)
-			if i%3 == 0 || i == len(ops)-1 {
+			if !p.big || i%3 == 0 || i == len(ops)-1 {
 				p.reopen(im.clone(), true, "prefix", script)
 			}
 		}
